@@ -50,7 +50,7 @@ Options ==
    O("-afs", <<"14", "5">>, "afs", <<"14", "5">>, {}),
    O("-xticklabels", <<"a,b,c", "x,y">>, "xticklabels", <<"a|b|c", "x|y">>, {}),
    O("-yticklabels", <<"lo,mid,hi", "p,q">>, "yticklabels", <<"lo|mid|hi", "p|q">>, {}),
-   O("-af", <<"key", "score,key">>, "annotationfields", <<"1", "2">>, {}),
+   O("-af", <<"key", "key,score">>, "annotationfields", <<"1", "2:key,score">>, {}),      \* the fields appear in the order given
    O("-obsleg", <<"Measured", "Truth">>, "obsleg", <<"Measured", "Truth">>, {"legend"}),
    \* colour scale of the map view: its label and its limits (every panel's points use the same limits)
    O("-clabel", <<"Score_c", "C2">>, "clabel", <<"Score_c", "C2">>, {}),
